@@ -74,7 +74,7 @@ def report(ck, viols):
             prog = dict(v["program"])
             prog["runs"] = [cfg]
             ck.violation("C15: region domain %s (config %s), program %d (%s, ssa=%s): %s at block b%d idx %d; concrete state %s "
-                         "(scalars, bools, regions [cells 1..5, then tag masks], references, allocator); execution tail %s" %
+                         "(scalars, bools, regions [cells 1..8, then tag masks 1..8], references, allocator); execution tail %s" %
                          (dom, json.dumps(cfg), prog["id"], prog.get("shape"), prog.get("ssa"), describe(v), v["block"], v["idx"], v["state"],
                           v["execution"][-8:]),
                          {"program": prog, "execution": v["execution"], "state": v["state"], "violated": v["violated"]})
@@ -83,30 +83,41 @@ def report(ck, viols):
 def run(tier, seed):
     ck = Check("C15", tier, seed + 15000)
     build("prog_runner")
-    n = int(os.environ.get("C15_N", 160 if tier == "quick" else 2400))
-    batch = 80 if tier == "quick" else 200
-    done = k = 0
+    # groups of programs: (label, number, ssa) - "ssa": a reference variable is the target of at most one make_ref statement and
+    # of nothing else; "reassign": reference variables are re-assigned freely (make_ref into a variable that already has a value)
+    if tier == "quick":
+        groups = [("ssa", 260, True), ("reassign", 60, False)]
+    else:
+        groups = [("ssa", 300, True), ("reassign", 100, False)] * 6
+    if os.environ.get("C15_N"):
+        groups = [("mixed", int(os.environ["C15_N"]), None)]
+    pid = k = 0
     ops = collections.Counter()
     cnt = collections.Counter()
     shapes = collections.Counter()
-    while done < n:
-        m = min(batch, n - done)
+    for label, m, ssa in groups:
         ps = []
         for i in range(m):
-            p = regiongen.program(ck.rng, done + i + 1)
+            pid += 1
+            p = regiongen.program(ck.rng, pid, ssa=ssa)
             p["runs"] = run_configs(ck.rng)
             ops.update(regiongen.count_ops(p))
             shapes[p["shape"] + ("/ssa" if p["ssa"] else "/reassign")] += 1
             ps.append(p)
-        viols, merged, _ = progsound.explore(ck, "b%d" % k, ps, box=1, univ=12, spec="RegionSound")
+        # every reported violation costs one more TLC run of the batch: stop looking for further ones once many are known
+        viols, merged, _ = progsound.explore(ck, "b%d-%s" % (k, label), ps, box=1, univ=12, spec="RegionSound",
+                                             max_iter=(2 if tier == "quick" else 3) if len(ck.violations) < 10 else 1)
         count_answers(merged, cnt)
         ck.cov["distinct_nontrivial"] += sum(1 for p in merged for r in p["runs"] if r["err"] == 0 and
                                              any(o["bot"] == 0 and o["top"] == 0 for o in r["post"]))
-        if k == 0:
-            ck.sample({"program": {x: ps[0][x] for x in ("shape", "ssa", "layoutA", "vars", "blocks")}, "run_configs": ps[0]["runs"][:3]})
+        if k < 2:
+            ck.sample({"group": label, "program": {x: ps[0][x] for x in ("shape", "ssa", "layoutA", "vars", "blocks")}, "run_configs": ps[0]["runs"][:3]})
         report(ck, viols)
-        done += m
         k += 1
+    crashed = sum(v for key, v in ck.cov.get("harness_no_claim", {}).items() if key.endswith(":crash"))
+    if crashed:
+        vlib.log("NOTE: %d analyzer runs ended with a signal (no claim made about them); see C15_findings.md D5 (dangling `this` in the "
+                 "region domain's ghost variable manager, unknown regions with region.skip_unknown_regions=false)" % crashed)
     ck.cov["statements_in_programs"] = dict(ops)
     ck.cov["loads_in_programs"] = ops["rload"]
     ck.cov["program_shapes"] = dict(shapes)
@@ -120,7 +131,7 @@ def run(tier, seed):
                       "concrete reference, assert_ref verdicts hold. non-trivial = (program, run) with a non-top non-bottom post-invariant")
     ck.assumptions += ["loads of never-written cells, dereferences of null / freed / foreign-region addresses, use of an unassigned reference and "
                        "gep_ref leaving the object are outside the model (execution not followed)",
-                       "addresses are abstract cell units (gep offsets 0/1, objects of 1-2 cells, 5 addresses, never reused); make_ref returns a fresh non-null address",
+                       "addresses are abstract cell units (gep offsets 0/1, objects of 1-2 cells, 8 addresses, never reused); make_ref returns a fresh non-null address",
                        "tags: weakest reading (a store clears the tags of the overwritten cell; no flow through scalar variables)"]
     return ck.finish()
 
